@@ -570,7 +570,8 @@ pub fn damage(tree: &Value, kind: u8, arg: u32) -> (Option<Value>, bool) {
 							}
 							"window_buf_oversize" => {
 								if PMAX <= 255 {
-									let target_len = (PMAX + u64::from(arg % 2)) as usize;
+									let idx = v.field("index").and_then(Value::as_u64).unwrap_or(0);
+									let target_len = crate::c01::oversize_len(1 + u64::from(arg % 7), idx) as usize;
 									if let Some(Value::Seq(b)) = v.field_mut("buf") {
 										while b.len() < target_len {
 											b.push(elem.clone());
@@ -667,6 +668,7 @@ pub fn run_b(info: &Factory, case: &MCase, a: &[Out], stats: &mut Stats) -> Vec<
 					}
 				}
 				stats.log(a[pos].hash());
+				stats.checked += 1;
 				pos += 1;
 				stats.ticks += 1;
 			}
@@ -700,6 +702,7 @@ pub fn run_b(info: &Factory, case: &MCase, a: &[Out], stats: &mut Stats) -> Vec<
 						}
 						pos += k;
 						stats.ticks += k as u64;
+						stats.checked += k as u64;
 					}
 					Ok(None) => {
 						// API not available for this SUT: deliver tick by tick
